@@ -27,6 +27,11 @@ RULE = ("program families of C02 (vh tasks incl. catch, failures, File inputs/ou
 ASSUMPTIONS = ["SQLite file backend so that a byte copy of the pre-dry-run state exists"]
 
 
+from vlib import wf_tasks as _wt  # noqa: E402
+
+W_COUNT = _wt.TASKS["count_errs"]
+
+
 def run_case(ctx, rnd, where):
     d = tempfile.mkdtemp(prefix="verif_c28_")
     try:
@@ -38,7 +43,7 @@ def run_case(ctx, rnd, where):
         world = c02.World(rnd, family, d)
         # a job that can never be submitted (its executor option names no configured executor): a real run rejects it
         # without executing anything, so a dry run must not count it as work that "would run"
-        bad = rnd.choice([None, None, None, "uncaught", "caught"])
+        bad = rnd.choice([None, None, None, "uncaught", "caught", "caught_all", "caught_all"])
 
         def expr():
             e = world.expr(False)
@@ -49,6 +54,11 @@ def run_case(ctx, rnd, where):
             b = hist.T["leafA"].options(executor="no_such_executor")(977)
             if bad == "caught":
                 b = catch(b, SchedulerError, hist.T["recover"])
+            elif bad == "caught_all":
+                # catch_all does not cache its own evaluation: the rejected job is created again in every execution,
+                # while the recovery call is a task call and is replayed from the cache
+                from redun.scheduler import catch_all
+                b = catch_all([b, 3], SchedulerError, W_COUNT)
             return [e, b]
         path = os.path.join(d, "r.db")
         backend = c22.open_backend(path)
@@ -94,7 +104,7 @@ def run_case(ctx, rnd, where):
             if engine.outcome_key(out) != key:
                 ctx.violation("dry-run-mispredicts-value", "dry run returned %r, the real run on the same backend returns %r" % (
                     engine.outcome_key(out), key), wit)
-            if calls:
+            if calls or c2.submits:
                 ctx.count("completed_dry_run_but_real_run_executed_tasks")
                 ctx.violation("dry-run-completed-but-real-run-executes", "dry run completed, yet the real run invoked %r" % (calls[:3],), wit)
         elif out[0] == "e" and isinstance(out[1], DryRunResult):
@@ -102,7 +112,9 @@ def run_case(ctx, rnd, where):
             if cached_jobs:
                 ctx.nontrivial([family, steps, cfg])
                 ctx.count("dry_runs_on_partially_cached_backend")
-            if not calls:
+            # "a real run would execute at least one task": any job handed to an executor counts (also redun's own
+            # root task for a top-level expression that was never evaluated as a whole before)
+            if not calls and not c2.submits:
                 ctx.violation("dry-run-stopped-but-real-run-executes-nothing", "dry run reported additional jobs would run, but "
                               "the real run invoked no task function (result %r)" % (key,), wit)
         elif out[0] == "e":
